@@ -14,7 +14,7 @@ A layout (JSON-able) is
            unsets the variable around the load), int(os.environ.get(KEY, '0')), an attribute of the object the callable
            receives (function attribute / class attribute / module global), len() of such an attribute, or
            <name>.count('_') of the item's own Python identifier (then "pv" is None: `cond_pv` computes it from the identifier);
-           "callable": a lambda, a callable instance, or a callable instance that is itself a false value (finding D36)
+           "callable": a lambda, a callable instance, or a callable instance that is itself a false value (the input class of the repaired finding D36)
   PV     = {"t": "none"} | {"t":"bool","v":b} | {"t":"int","v":i} | {"t":"float","k":"fin","milli":m} | {"t":"float","k":"negzero"|"nan"}
            | {"t":"float","k":"inf","neg":b} | {"t":"str","v":s} | {"t":"list"|"tuple"|"dict","n":n} | {"t":"obj"}
            | {"t":"objbool","v":b} (instance whose __bool__ returns b) | {"t":"objlen","n":n} (instance with only __len__)
